@@ -206,7 +206,7 @@ PROFILES = {
         [sim(40, 24, MaxSeq=18, MaxTables=5, MaxHist=20, MaxSnaps=2, MaxSealed=2,
              Ops=SNAP_OPS | {"reopen", "ingest"}, WriteBias=3),
          drv(24, 140, dict(DRIVE_SNAP_W, ingest=2.5))],
-        c(Ops=SNAP_OPS | {"ingest"}, MaxSeq=6, MaxSnaps=1, MaxHist=4, DestLevels={0, 6}),
+        c(Ops=SNAP_OPS | {"ingest"}, MaxSeq=5, MaxSnaps=1, MaxHist=4, DestLevels={0, 6}),
         [sim(100, 30, Keys={1, 2, 3}, MaxSeq=26, MaxTables=6, MaxHist=30, MaxSnaps=2, MaxSealed=2,
              Ops=SNAP_OPS | {"reopen", "ingest"}, WriteBias=4),
          drv(300, 400, dict(DRIVE_SNAP_W, ingest=2.5))],
